@@ -5,6 +5,7 @@ package main
 // without anything that derives from a read made before the write.
 
 import (
+	"os"
 	"fmt"
 	"go/ast"
 	"go/token"
@@ -297,70 +298,115 @@ func (c *Ctx) casRule(kinds []string) {
 			var problems []string
 			var where token.Pos
 			outcomes := map[string]bool{}
+			// walk every path from the write onwards; the outcome of the write is fixed by the first
+			// row-count test met (later tests of the same count must agree); only paths on which the
+			// write was LOST are judged, with the whole path since the write as their history
+			lostSucc := map[*cfg.Block]*cfg.Block{}
 			for _, t := range tests {
+				lostSucc[t.b] = t.lost
+			}
+			var startBlock *cfg.Block
+			startIdx := 0
+			for _, b := range g.Blocks {
+				for k, nd := range b.Nodes {
+					if containsNode(nd, w.Call) && startBlock == nil {
+						startBlock, startIdx = b, k+1
+					}
+				}
+			}
+			if startBlock == nil {
+				c.und(key+"/lost-write", w.Call.Pos(), "the write is not a node of the control-flow graph")
+				continue
+			}
+			{
 				seen := map[*cfg.Block]bool{}
 				var path []ast.Node
-				var walk func(b *cfg.Block)
-				walk = func(b *cfg.Block) {
+				const unknown, lostSt, wonSt = 0, 1, 2
+				var walk func(b *cfg.Block, from int, st int)
+				walk = func(b *cfg.Block, from int, st int) {
 					if seen[b] {
 						return
 					}
 					seen[b] = true
 					mark := len(path)
 					defer func() { path = path[:mark]; seen[b] = false }()
-					for _, nd := range b.Nodes {
-						path = append(path, nd)
-						rs, ok := nd.(*ast.ReturnStmt)
-						if !ok {
-							continue
-						}
-						if len(rs.Results) == 1 {
-							// return Self(c, r): a call yielding both results
-							if call, ok := ast.Unparen(rs.Results[0]).(*ast.CallExpr); ok && calleeOf(info, call) == self {
-								outcomes["retry"] = true
-								return
-							}
-							problems = append(problems, "unrecognised return at "+c.P.pos(rs.Pos()))
-							where = rs.Pos()
-							return
-						}
-						if len(rs.Results) != 2 {
-							continue
-						}
-						r0 := ast.Unparen(rs.Results[0])
-						if id, ok := r0.(*ast.Ident); ok {
-							if _, isNil := info.Uses[id].(*types.Nil); isNil {
-								outcomes["error"] = true
-								return
-							}
-						}
-						if call, ok := r0.(*ast.CallExpr); ok {
-							if calleeOf(info, call) == self {
-								outcomes["retry"] = true
-								return
-							}
-						}
-						// a response: find its literal
-						lit := c.responseLiteral(cf, r0, path)
-						if lit == nil {
-							problems = append(problems, "cannot resolve the response returned at "+c.P.pos(rs.Pos()))
-							where = rs.Pos()
-							return
-						}
-						stale := c.staleFields(cf, lit, w, path)
-						if len(stale) > 0 {
-							problems = append(problems, "the response returned at "+c.P.pos(rs.Pos())+" still carries "+strings.Join(stale, ", ")+" read before the write")
-							where = rs.Pos()
-						} else {
-							outcomes["clean response"] = true
-						}
-						return
+					nodes := b.Nodes
+					if from > 0 && from <= len(nodes) {
+						nodes = nodes[from:]
 					}
-					for _, s := range b.Succs {
-						walk(s)
+					if st == lostSt {
+					for _, nd := range nodes {
+							path = append(path, nd)
+							rs, ok := nd.(*ast.ReturnStmt)
+							if !ok {
+								continue
+							}
+							if len(rs.Results) == 1 {
+								// return Self(c, r): a call yielding both results
+								if call, ok := ast.Unparen(rs.Results[0]).(*ast.CallExpr); ok && calleeOf(info, call) == self {
+									outcomes["retry"] = true
+									return
+								}
+								problems = append(problems, "unrecognised return at "+c.P.pos(rs.Pos()))
+								where = rs.Pos()
+								return
+							}
+							if len(rs.Results) != 2 {
+								continue
+							}
+							r0 := ast.Unparen(rs.Results[0])
+							if id, ok := r0.(*ast.Ident); ok {
+								if _, isNil := info.Uses[id].(*types.Nil); isNil {
+									outcomes["error"] = true
+									return
+								}
+							}
+							if call, ok := r0.(*ast.CallExpr); ok {
+								if calleeOf(info, call) == self {
+									outcomes["retry"] = true
+									return
+								}
+							}
+							// a response: find its literal
+							lit := c.responseLiteral(cf, r0, path)
+							if lit == nil {
+								problems = append(problems, "cannot resolve the response returned at "+c.P.pos(rs.Pos()))
+								where = rs.Pos()
+								return
+							}
+							stale := c.staleFields(cf, lit, w, path)
+							if len(stale) > 0 {
+								problems = append(problems, "the response returned at "+c.P.pos(rs.Pos())+" still carries "+strings.Join(stale, ", ")+" read before the write")
+								where = rs.Pos()
+							} else {
+								outcomes["clean response"] = true
+							}
+							return
+						}
+					} else {
+						for _, nd := range nodes {
+							path = append(path, nd)
+							if _, isRet := nd.(*ast.ReturnStmt); isRet {
+								return
+							}
+						}
+					}
+					for _, sc := range b.Succs {
+						ns := st
+						if ls, isTest := lostSucc[b]; isTest {
+							edge := wonSt
+							if sc == ls {
+								edge = lostSt
+							}
+							if st != unknown && st != edge {
+								continue // contradicts the outcome established by an earlier test
+							}
+							ns = edge
+						}
+						walk(sc, 0, ns)
 					}
 				}
-				walk(t.lost)
+				walk(startBlock, startIdx, unknown)
 			}
 			var os []string
 			for o := range outcomes {
@@ -466,11 +512,15 @@ func (c *Ctx) staleFields(cf *coroFunc, lit *ast.CompositeLit, w *writePoint, pa
 				continue
 			}
 			p := cf.Env.prov(kv.Value)
-			if !strings.Contains(p, "rec") {
+			// values that are (or may be: an unresolved variable) decoded from a store read
+			if !strings.Contains(p, "rec") && !strings.Contains(p, "var:") && !strings.Contains(p, "phi(") {
 				continue
 			}
 			origins := map[token.Pos]bool{}
 			cf.Env.awaitOrigins(kv.Value, 0, origins, path...)
+			if os.Getenv("RESOLINT_DEBUG") != "" {
+				fmt.Fprintf(os.Stderr, "stale? %s.%s = %s prov=%s origins=%v write=%v pathlen=%d\n", cf.Name, name, exprString(kv.Value), p, origins, w.Call.Pos(), len(path))
+			}
 			for pos := range origins {
 				if pos < w.Call.Pos() {
 					out = append(out, prefix+name+" ("+exprString(kv.Value)+")")
